@@ -30,7 +30,7 @@ PRED = ["P1.A", "P1.B and i > 2", "x < 5", "i == 3 || b", "not P2.B", "P1.A impl
 EXPR = ["i", "x", "i + j", "P1.li", "a[1]", "bi * 2", "P1.lx", "s.f", "cost", "d", "i - j"]
 BOUND = ["<=10", "<=100", "#<=20", "x<=10", "<=N", "#<=5", "y<=3", "cost<=7"]
 RUNS = ["", ";100", ";7", ";1"]
-PROB = ["0.5", "0.25", "0.9", "0.05", "0.75", "1.0", "0.123456789"]
+PROB = ["0.5", "0.25", "0.9", "0.05", "0.75", "1.0", "0.123456789", "0.7", "0.1", "0.3", "0.30000000000000004", "0.99", "0.6"]
 
 
 def catalogue(rng, n):
